@@ -29,9 +29,9 @@ make in a refactoring, an optimisation or a feature addition), each of which BRE
 Make the {n} changes differ in mechanism and location (touch different functions / different clauses of the property).
 Only change files under src/ or include/ (not tests, not examples, not build files). Keep each change small (a few lines).
 
-How to build and test (takes a few minutes; use -j8 so that other jobs can run too):
-  cd {wt} && cmake -G Ninja -B _build -DCMAKE_BUILD_TYPE=RelWithDebInfo >/dev/null && cmake --build _build -j8 2>&1 | tail -3
-  ctest --test-dir _build -j8 --timeout 900 2>&1 | tail -5        # all 28 ctest entries must pass
+How to build and test (takes a few minutes; use -j4: other jobs share this machine and each compile job needs up to 2 GB of memory):
+  cd {wt} && cmake -G Ninja -B _build -DCMAKE_BUILD_TYPE=RelWithDebInfo >/dev/null && cmake --build _build -j4 2>&1 | tail -3
+  ctest --test-dir _build -j4 --timeout 900 2>&1 | tail -5        # all 28 ctest entries must pass
 Library: _build/lib/libgm2calc.a ; program: _build/bin/gm2calc.x ; headers: include/ ; Eigen in /usr/include/eigen3.
 Example inputs: input/example.slha, input/example.gm2, input/example.thdm (usage: _build/bin/gm2calc.x --slha-input-file=F,
 --gm2calc-input-file=F, --thdm-input-file=F). A C/C++ demo can be compiled e.g. with
